@@ -270,9 +270,81 @@ def _good(rng, n):
     return 0
 
 
+def other_type_names_fail():
+    """Every type name the constructor accepts - the 18 of the specification and whatever else the working tree's own tables
+    advertise (aliases, spellings) - gives a message whose state is valid and stays valid: the caller's own data list is not
+    the message's, a rejected `+=` / assignment / copy changes nothing."""
+    import mido
+    cands = set()
+    for modname in ('mido.messages.specs', 'mido.messages.strings', 'mido.messages.messages', 'mido.messages.checks',
+                    'mido.messages.decode', 'mido.messages.encode', 'mido.messages', 'mido'):
+        try:
+            mod = __import__(modname, fromlist=['x'])
+        except Exception:      # noqa: BLE001
+            continue
+        for v in list(vars(mod).values()):
+            items = []
+            if isinstance(v, dict):
+                items = list(v.keys()) + list(v.values())
+            elif isinstance(v, (list, tuple, set, frozenset)):
+                items = list(v)
+            for x in items:
+                if isinstance(x, str) and 0 < len(x) < 40:
+                    cands.add(x)
+                elif isinstance(x, dict):
+                    cands.update(y for y in list(x.keys()) + list(x.values()) if isinstance(y, str) and 0 < len(y) < 40)
+    for nm in sorted(cands - set(msgs.TYPES)):
+        for via in ('constructor', 'from_dict'):
+            source = [1, 2, 3]
+            try:
+                m = mido.Message(nm, data=source) if via == 'constructor' else mido.Message.from_dict({'type': nm, 'data': source})
+            except Exception:      # noqa: BLE001 - not a type name (or not one that takes data): nothing to judge
+                try:
+                    m = mido.Message(nm) if via == 'constructor' else mido.Message.from_dict({'type': nm})
+                except Exception:      # noqa: BLE001
+                    continue
+            bad = valid_ref(m)
+            if bad:
+                return f'Message({nm!r}, …) ({via}) is accepted and holds an invalid state: {bad} ({vars(m)})'
+            if 'data' in vars(m):
+                source.append(999)
+                if valid_ref(m):
+                    return (f'Message({nm!r}, data=<list>) ({via}) keeps the caller\'s list: appending 999 to that list afterwards '
+                            f'changed the message to {vars(m)}')
+                snap = copy.deepcopy(vars(m))
+                for attempt in (lambda: m.__iadd__([4, 300]) if False else m.__setattr__('data', m.data.__iadd__([4, 300])),
+                                lambda: setattr(m, 'data', [1, 200]), lambda: m.copy(data=[1, 300])):
+                    try:
+                        attempt()
+                    except Exception:      # noqa: BLE001
+                        pass
+                    if valid_ref(m) or vars(m) != snap:
+                        return (f'after a rejected change of the data of Message({nm!r}, data=[1, 2, 3]) ({via}) the message holds '
+                                f'{vars(m)} (before: {snap})')
+                try:
+                    d = m.data
+                    d += [5, 300]
+                except Exception:      # noqa: BLE001
+                    pass
+                if valid_ref(m) or vars(m) != snap:
+                    return f'`d = msg.data; d += [5, 300]` on Message({nm!r}, data=[1, 2, 3]) ({via}) changed the message to {vars(m)}'
+                try:
+                    m.data += [4, 300]
+                except Exception:      # noqa: BLE001
+                    pass
+                if valid_ref(m) or vars(m) != snap:
+                    return f'a rejected `msg.data += [4, 300]` on Message({nm!r}, data=[1, 2, 3]) ({via}) left the message as {vars(m)}'
+    return None
+
+
 def run(ck):
     ck.prepare_lean()
     ck.run_corpus(oracle)
+    ck.evaluations += 1
+    ck.count('other_type_names')
+    f0 = other_type_names_fail()
+    if f0:
+        ck.oracle_fail({'other_type_names': True}, f0)
     hs = gen(ck)
     res = [r for part in pool_map(_chunk, list(chunks(hs, 2000))) for r in part]
     reqs, impl = [], []
@@ -303,6 +375,8 @@ def run(ck):
 
 
 def oracle(case):
+    if isinstance(case, dict) and case.get('other_type_names'):
+        return other_type_names_fail()
     return run_history(eval(case['ops']))[1]
 
 
